@@ -53,6 +53,7 @@ def one(sid, tier='quick', skip_validate=False):
             t0 = time.time()
             c = sh([PY, os.path.join(HERE, 'check.py'), p, '--tier', tier], env=env2, cwd=VERIF, timeout=3600)
             lines = [l for l in c.stdout.split('\n') if l.startswith('VIOLATION') or l.strip().startswith('broken') or l.strip().startswith('failing input')]
+            lines = [l for l in lines if l.startswith('VIOLATION')] + [l for l in lines if not l.startswith('VIOLATION')][:7]
             res['checks'][p] = {'exit': c.returncode, 'wall_s': round(time.time() - t0, 1), 'lines': lines[:8],
                                 'tail': c.stdout[-400:] if c.returncode not in (0, 1) else ''}
         res['caught'] = any(v['exit'] == 1 and any(l.startswith('VIOLATION') for l in v['lines']) for v in res['checks'].values())
